@@ -61,6 +61,9 @@ def scenarios():
         out.append(("json-raw", {"limit": limit}, lambda limit=limit: JSONSerializer(use_lines=False, limit=limit),
                     [{"a": 1}, [1, 2], "s\\\"x", 5, {"k": "}{"}, [[], {}]]))
         out.append(("json-lines", {"limit": limit}, lambda limit=limit: JSONSerializer(use_lines=True, limit=limit), [{"a": 1}, [1, 2], "s", 5]))
+    # debug mode builds error_info from the decoder's exception: every kind of decoder failure must survive that (C06)
+    out.append(("json-lines-debug", {"limit": 8192}, lambda: JSONSerializer(use_lines=True, limit=8192, debug=True), [{"a": 1}, [1, 2]]))
+    out.append(("json-raw-debug", {"limit": 8192}, lambda: JSONSerializer(use_lines=False, limit=8192, debug=True), [{"a": 1}, [1, 2]]))
     out.append(("base64", {}, lambda: Base64EncoderSerializer(StringLineSerializer(), checksum=True, limit=128), ["hello", "w", "xyz" * 5]))
     out.append(("line-crlf", {}, lambda: StringLineSerializer("CRLF", limit=16), ["abc", "d\r", "\ne", "ff"]))
     # a payload of exactly `limit` bytes is accepted by the copying path under every chunking (the buffered path, whose buffer is
@@ -77,7 +80,8 @@ def scenarios():
     return out
 
 
-BAD_FRAMES = {"pickle": b"NN\x85R.",  # REDUCE applied to None: the unpickler raises TypeError
+BAD_FRAMES = {"json-lines-debug": b"1" * 5000 + b"\n", "json-raw-debug": b"[" + b"1" * 5000 + b"]",  # int literal beyond the str->int digit limit: plain ValueError
+              "pickle": b"NN\x85R.",  # REDUCE applied to None: the unpickler raises TypeError
               "filebased": b"\x02!!", "json-lines": b"{nope\n", "line-crlf": b"\xff\xfe\r\n", "base64": b"QUJD\r\n",
               "line-idna": b"xn--a\n", "line-utf16": b"\x00\xd8x\n", "json-raw": b"{nope}", "struct-strings": b"\xff\xfe\xfd\xfc\xfb\xfa\x00\x01abc"}
 
@@ -108,14 +112,14 @@ def oneshot():
         if packets:
             d = ser.serialize(packets[0])
             # two packets in one datagram (not for the line-based one-shot codecs: two lines without a terminator are one valid line)
-            bads += [d + d] if not name.startswith("line-") and name not in ("json-lines", "base64") else []
+            bads += [d + d] if not name.startswith("line-") and name not in ("json-lines", "json-lines-debug", "base64") else []
             bads += [d[:-1]] if name in ("filebased", "struct", "struct-strings", "zlib", "bz2") else []  # truncated datagram
         for b in bads:
             cases += 1
             for what, f in (("serializer", lambda: ser.deserialize(b)), ("protocol", lambda: proto.build_packet_from_datagram(b))):
                 try:
                     r = f()
-                    if name in ("json-raw", "json-lines") and b in (BAD_FRAMES.get(name),):
+                    if name.startswith("json-") and b in (BAD_FRAMES.get(name),):
                         bad = {"returned": repr(r)}
                     elif b == BAD_FRAMES.get(name) or b.startswith(d):
                         bad = {"returned": repr(r)}
